@@ -59,6 +59,10 @@ CHECKS = {
          "Generated-history search: 1..4 connections x two payload streams (0..64 KiB, sequence numbers crossing 2^32) are segmented by a harness TCP sender, then interleaved, duplicated, re-segmented, swapped, IPv4-fragmented (fragments reordered) and selectively omitted by rapid-drawn edits, framed by hand-written Ethernet / raw IP / SLL / SLL2 / loopback and pcap (LE/BE, us/ns) / pcapng (multi-section) writers; fq's .tcp_connections and .ipv4_reassembled (through the decode tree and, for a sample, through jq) must equal the model: exact bytes per direction and endpoint, with loss only the prefix before the first missing byte plus a non-zero skipped_bytes.",
          "Trusted: lib/pcapgen and the sender model. SYN omission, 4-tuple reuse and mid-connection captures are not generated. Five library-level (gopacket) or by-design limits are listed known findings and decided from the generated input, never from fq's output.",
          "DESIGN.md 2/C19"),
+ "C10": ("rapid-generated display configurations, dump output parsed back into (address, byte) pairs and ranges; JSON output parsed back",
+         "Generated-configuration search: binaries (any start alignment/length, slices of slices) and decode trees (corpus + generated decoder programs, nested buffers, inner values) x line_bytes 1..64 x addrbase/sizebase {2,8,10,16,36} x display_bytes x verbose x colour x depth are rendered by d/dd/dv/hd (directly through the exported Display interface and, for a sample, through the whole CLI); a parser of the dump locates columns by fixed widths and every hex pair / ascii cell must equal the buffer byte at the printed row address + column, untruncated values must show their bytes exactly once, until-markers and verbose ranges must parse back to the true range and size, the ruler must be right. JSON (tojson, -V, --argjson, literals; ints to 2^200, floats, escapes) must parse to the source value, integers by decimal string.",
+         "Trusted: the dump parser/oracle in props/c10, encoding/json as the JSON reader. A cut until-marker is not parsed back; colour output is only stripped, not compared with monochrome. Two display defects are listed known findings (one pinned by 108 goldens).",
+         "DESIGN.md 2/C10"),
 }
 
 NOT_YET = {}
